@@ -1816,8 +1816,6 @@ def gen_lean():
     tree = ast.parse(open(path).read())
     classes = {n.name: n for n in tree.body if isinstance(n, ast.ClassDef)}
     funcs = {n.name: n for n in tree.body if isinstance(n, ast.FunctionDef)}
-    if "_AtomArrayBase" not in classes or "AtomArrayStack" not in classes or "AtomArray" not in classes:
-        raise ValueError("_AtomArrayBase / AtomArray / AtomArrayStack not found in atoms.py")
 
     roles = _private_roles(tree)
 
@@ -1842,60 +1840,100 @@ def gen_lean():
                             out.append(base.attr)
         return out
 
-    init_fields = self_attrs_assigned(method("_AtomArrayBase", "__init__"))
-    # mutable state = everything but the plain integer length
-    copied = []
-    for mname in ("__copy_fill__", "_copy_annotations"):
-        fn = method("_AtomArrayBase", mname)
-        if len(fn.args.args) != 2:
-            raise ValueError(f"{mname}: expected the signature (self, clone)")
-        clone_name = fn.args.args[1].arg          # whatever the second parameter is called
-        for n in ast.walk(fn):
-            if isinstance(n, ast.Assign):
-                for t in n.targets:
-                    base = t
-                    while isinstance(base, ast.Subscript):
-                        base = base.value
-                    if isinstance(base, ast.Attribute) and isinstance(base.value, ast.Name) and base.value.id == clone_name:
-                        # the right-hand side must be a fresh object: np.copy(...) or x.copy()
-                        v = n.value
-                        fresh = isinstance(v, ast.Call) and isinstance(v.func, ast.Attribute) and v.func.attr == "copy"
-                        copied.append((base.attr, fresh))
-    if not init_fields or not copied:
-        raise ValueError("could not extract __init__ fields / copy path of _AtomArrayBase")
-    # __copy_create__ of both classes must pass the current sizes
-    creates = []
-    for cls in ("AtomArray", "AtomArrayStack"):
-        fn = method(cls, "__copy_create__")
-        ret = next((n for n in ast.walk(fn) if isinstance(n, ast.Return)), None)
-        if ret is None or not isinstance(ret.value, ast.Call):
-            raise ValueError(f"{cls}.__copy_create__ has no constructor call")
-        args = [ast.unparse(a).replace("self.", "") for a in ret.value.args]
-        creates.append((cls, ast.unparse(ret.value.func), args))
-    # what AtomArrayStack.__delitem__ and _del_element re-assign
-    del_stack = self_attrs_assigned(method("AtomArrayStack", "__delitem__"))
-    del_elem = self_attrs_assigned(method("_AtomArrayBase", "_del_element"))
-    sub_fn = method("_AtomArrayBase", "_subarray")
-    sub_objs = {t.id for n in ast.walk(sub_fn) if isinstance(n, ast.Assign) and isinstance(n.value, ast.Call)
-                and isinstance(n.value.func, ast.Name) and n.value.func.id in ("AtomArray", "AtomArrayStack")
-                for t in n.targets if isinstance(t, ast.Name)}
-    if len(sub_objs) != 1:
-        raise ValueError("_subarray: expected one local holding the new AtomArray/AtomArrayStack")
-    sub_new = self_attrs_assigned(sub_fn, sub_objs.pop())
-    for f in ("concatenate", "stack", "repeat", "from_template", "array"):
-        if f not in funcs:
-            raise ValueError(f"function {f} not found in atoms.py")
-    mand, mand_dt = [], []
-    for n in ast.walk(method("_AtomArrayBase", "__init__")):
-        if isinstance(n, ast.Call) and isinstance(n.func, ast.Attribute) and n.func.attr == "add_annotation" and n.args:
-            if isinstance(n.args[0], ast.Constant):
-                mand.append(n.args[0].value)
-                dt = next((k.value for k in n.keywords if k.arg == "dtype"), n.args[1] if len(n.args) > 1 else None)
-                if dt is None:
-                    raise ValueError("add_annotation call in __init__ without dtype")
-                mand_dt.append((n.args[0].value, dt.value if isinstance(dt, ast.Constant) else ast.unparse(dt)))
-    if len(mand) != len(mand_dt) or not mand:
-        raise ValueError("could not extract the mandatory annotation categories and their dtypes")
+    # Every table is extracted on its own; when the source has lost the expected shape the table becomes a sentinel
+    # (`<not found: …>`), so that the NAMED Lean obligation about it breaks instead of the extractor crashing.
+    def guarded(f, sentinel):
+        try:
+            return f()
+        except Exception as e:  # noqa: BLE001
+            return sentinel(f"<not found: {type(e).__name__}: {str(e)[:80]}>".replace('"', "'"))
+
+    init_fields = guarded(lambda: self_attrs_assigned(method("_AtomArrayBase", "__init__")), lambda m: [m])
+
+    def copy_path():
+        copied = []
+        for mname in ("__copy_fill__", "_copy_annotations"):
+            fn = method("_AtomArrayBase", mname)
+            if len(fn.args.args) != 2:
+                raise ValueError(f"{mname}: expected the signature (self, clone)")
+            clone_name = fn.args.args[1].arg          # whatever the second parameter is called
+            for n in ast.walk(fn):
+                if isinstance(n, ast.Assign):
+                    for t in n.targets:
+                        base = t
+                        while isinstance(base, ast.Subscript):
+                            base = base.value
+                        if isinstance(base, ast.Attribute) and isinstance(base.value, ast.Name) and base.value.id == clone_name:
+                            # the right-hand side must be a fresh object: np.copy(...) or x.copy()
+                            v = n.value
+                            fresh = isinstance(v, ast.Call) and isinstance(v.func, ast.Attribute) and v.func.attr == "copy"
+                            copied.append((base.attr, fresh))
+        if not copied:
+            raise ValueError("no attribute of the clone is assigned in the copy path")
+        return copied
+    copied = guarded(copy_path, lambda m: [(m, False)])
+
+    def copy_create():
+        creates = []
+        for cls in ("AtomArray", "AtomArrayStack"):
+            fn = method(cls, "__copy_create__")
+            ret = next((n for n in ast.walk(fn) if isinstance(n, ast.Return)), None)
+            if ret is None or not isinstance(ret.value, ast.Call):
+                raise ValueError(f"{cls}.__copy_create__ has no constructor call")
+            args = [ast.unparse(a).replace("self.", "") for a in ret.value.args]
+            creates.append((cls, ast.unparse(ret.value.func), args))
+        return creates
+    creates = guarded(copy_create, lambda m: [(m, "", [])])
+    del_stack = guarded(lambda: self_attrs_assigned(method("AtomArrayStack", "__delitem__")), lambda m: [m])
+    del_elem = guarded(lambda: self_attrs_assigned(method("_AtomArrayBase", "_del_element")), lambda m: [m])
+
+    def subarray_fields():
+        sub_fn = method("_AtomArrayBase", "_subarray")
+        sub_objs = {t.id for n in ast.walk(sub_fn) if isinstance(n, ast.Assign) and isinstance(n.value, ast.Call)
+                    and isinstance(n.value.func, ast.Name) and n.value.func.id in ("AtomArray", "AtomArrayStack")
+                    for t in n.targets if isinstance(t, ast.Name)}
+        if len(sub_objs) != 1:
+            raise ValueError("_subarray: expected one local holding the new AtomArray/AtomArrayStack")
+        return self_attrs_assigned(sub_fn, sub_objs.pop())
+    sub_new = guarded(subarray_fields, lambda m: [m])
+
+    def mandatory_table():
+        """(category, dtype) of the add_annotation calls of __init__: literal calls, or one call in a loop over a
+        module-level literal table of pairs."""
+        init = method("_AtomArrayBase", "__init__")
+        out = []
+
+        def dtype_text(dt):
+            return dt.value if isinstance(dt, ast.Constant) else ast.unparse(dt)
+        consts = {t.id: n.value for n in tree.body if isinstance(n, ast.Assign) for t in n.targets if isinstance(t, ast.Name)}
+        for st in init.body:
+            calls = [n for n in ast.walk(st) if isinstance(n, ast.Call) and isinstance(n.func, ast.Attribute)
+                     and n.func.attr == "add_annotation"]
+            if not calls:
+                continue
+            if isinstance(st, ast.For) and isinstance(st.iter, ast.Name) and st.iter.id in consts and isinstance(
+                    consts[st.iter.id], (ast.Tuple, ast.List)) and isinstance(st.target, ast.Tuple) and len(st.target.elts) == 2:
+                c = calls[0]
+                names = [e.id for e in st.target.elts if isinstance(e, ast.Name)]
+                dt = next((k.value for k in c.keywords if k.arg == "dtype"), c.args[1] if len(c.args) > 1 else None)
+                if (len(calls) != 1 or len(names) != 2 or not c.args or not isinstance(c.args[0], ast.Name) or c.args[0].id != names[0]
+                        or not isinstance(dt, ast.Name) or dt.id != names[1]):
+                    raise ValueError("add_annotation loop of __init__ has an unexpected shape")
+                for row in consts[st.iter.id].elts:
+                    if not isinstance(row, (ast.Tuple, ast.List)) or len(row.elts) != 2 or not isinstance(row.elts[0], ast.Constant):
+                        raise ValueError("table of mandatory annotations is not a literal list of pairs")
+                    out.append((row.elts[0].value, dtype_text(row.elts[1])))
+            else:
+                for c in calls:
+                    dt = next((k.value for k in c.keywords if k.arg == "dtype"), c.args[1] if len(c.args) > 1 else None)
+                    if not c.args or not isinstance(c.args[0], ast.Constant) or dt is None:
+                        raise ValueError("add_annotation call of __init__ is not literal")
+                    out.append((c.args[0].value, dtype_text(dt)))
+        if not out:
+            raise ValueError("no add_annotation call found in __init__")
+        return out
+    mand_dt = guarded(mandatory_table, lambda m: [(m, "")])
+    mand = [a for a, _ in mand_dt]
 
     def sl(xs):
         return "[" + ", ".join('"' + x + '"' for x in xs) + "]"
@@ -1964,14 +2002,14 @@ def _private_roles(tree):
         c = classes.get(cls)
         fn = next((f for f in (c.body if c else []) if isinstance(f, ast.FunctionDef) and f.name == caller), None)
         if fn is None:
-            raise ValueError(f"{cls}.{caller} not found")
+            continue
         called = []
         for n in ast.walk(fn):
             if (isinstance(n, ast.Call) and isinstance(n.func, ast.Attribute) and isinstance(n.func.value, ast.Name)
                     and n.func.value.id == "self" and n.func.attr in defined and n.func.attr not in called):
                 called.append(n.func.attr)
         if len(called) != 1:
-            raise ValueError(f"{cls}.{caller}: expected exactly one private helper called on self, found {called}")
+            continue          # the label stays unresolved: its skeleton becomes `<not found>` and the named obligation breaks
         roles[called[0]] = label
     return roles
 
@@ -2063,6 +2101,22 @@ def _normalise_function(fn, roles):
     nonneg = {t.id for n in ast.walk(fn) if isinstance(n, ast.Assign) and len(n.targets) == 1
               for t in n.targets if isinstance(t, ast.Name) and single.get(t.id) == 1 and nonneg_source(n.value)}
 
+    def nn_const(e):
+        return isinstance(e, ast.Constant) and isinstance(e.value, int) and not isinstance(e.value, bool) and e.value >= 0
+    stores = {}      # counters: every store is `= <int >= 0>` or `+= <int >= 0>`
+    for n in ast.walk(fn):
+        if isinstance(n, ast.Assign):
+            for t in n.targets:
+                for nm in [x for x in ast.walk(t) if isinstance(x, ast.Name)]:
+                    stores.setdefault(nm.id, []).append(len(n.targets) == 1 and isinstance(t, ast.Name) and nn_const(n.value))
+        elif isinstance(n, ast.AugAssign) and isinstance(n.target, ast.Name):
+            stores.setdefault(n.target.id, []).append(isinstance(n.op, ast.Add) and nn_const(n.value))
+        elif isinstance(n, (ast.For, ast.comprehension)):
+            for nm in [x for x in ast.walk(n.target) if isinstance(x, ast.Name)]:
+                stores.setdefault(nm.id, []).append(False)
+    params_all = {a.arg for a in fn.args.posonlyargs + fn.args.args + fn.args.kwonlyargs}
+    nonneg |= {k for k, v in stores.items() if v and all(v) and k not in params_all}
+
     def vacuous_assert(st, prev):
         t = st.test
         if isinstance(t, ast.Compare) and len(t.ops) == 1 and isinstance(t.ops[0], ast.GtE) and isinstance(
@@ -2074,6 +2128,25 @@ def _normalise_function(fn, roles):
                 return True
             if isinstance(left, ast.Subscript) and isinstance(left.value, ast.Attribute) and left.value.attr == "shape":
                 return True
+        # `assert x.ndim == k` right after `if x.shape != (<k items>): raise …`
+        if (isinstance(prev, ast.If) and not prev.orelse and terminates(prev.body) and isinstance(prev.test, ast.Compare)
+                and len(prev.test.ops) == 1 and isinstance(prev.test.ops[0], ast.NotEq)
+                and isinstance(prev.test.left, ast.Attribute) and prev.test.left.attr == "shape"
+                and isinstance(prev.test.comparators[0], ast.Tuple)
+                and isinstance(t, ast.Compare) and len(t.ops) == 1 and isinstance(t.ops[0], ast.Eq)
+                and isinstance(t.left, ast.Attribute) and t.left.attr == "ndim"
+                and ast.dump(t.left.value) == ast.dump(prev.test.left.value)
+                and isinstance(t.comparators[0], ast.Constant) and t.comparators[0].value == len(prev.test.comparators[0].elts)):
+            return True
+        # `assert isinstance(x, Sequence)` right after `if not isinstance(x, Sequence): x = list(x)`
+        if (isinstance(prev, ast.If) and not prev.orelse and len(prev.body) == 1 and isinstance(prev.body[0], ast.Assign)
+                and isinstance(prev.body[0].value, ast.Call) and isinstance(prev.body[0].value.func, ast.Name)
+                and prev.body[0].value.func.id in ("list", "tuple")
+                and isinstance(t, ast.Call) and isinstance(t.func, ast.Name) and t.func.id == "isinstance" and len(t.args) == 2
+                and isinstance(t.args[1], ast.Name) and t.args[1].id in ("Sequence", "Iterable", "Collection", "Sized")
+                and ast.dump(negate(copy.deepcopy(prev.test))) == ast.dump(t)
+                and len(prev.body[0].targets) == 1 and ast.dump(prev.body[0].targets[0])[:-13] == ast.dump(t.args[0])[:-12]):
+            return True
         # `assert c` right after `if not c: raise …`
         if isinstance(prev, ast.If) and not prev.orelse and terminates(prev.body):
             return ast.dump(negate(copy.deepcopy(prev.test))) == ast.dump(t) or ast.dump(prev.test) == ast.dump(negate(copy.deepcopy(t)))
@@ -2313,25 +2386,32 @@ def _skeletons():
         if file not in trees:
             trees[file] = ast.parse(open(os.path.join(paths.SRC, "biotite", file)).read())
         body = trees[file].body
-        if cls is not None:
-            c = next((n for n in body if isinstance(n, ast.ClassDef) and n.name == cls), None)
-            if c is None:
-                raise ValueError(f"{file}: class {cls} not found")
-            body = c.body
-        roles = _private_roles(trees[file]) if file == "structure/atoms.py" else {}
-        actual = next((k for k, v in roles.items() if v == fn), fn)       # private helpers are found by their role
-        f = next((n for n in body if isinstance(n, ast.FunctionDef) and n.name == actual), None)
-        if f is None:
-            raise ValueError(f"{file}: {cls + '.' if cls else ''}{fn} not found")
-        res.append(((cls + "." if cls else "") + fn, _py_skeleton(f, roles)))
+        label = (cls + "." if cls else "") + fn
+        try:
+            if cls is not None:
+                c = next((n for n in body if isinstance(n, ast.ClassDef) and n.name == cls), None)
+                if c is None:
+                    raise ValueError(f"class {cls} not found")
+                body = c.body
+            roles = _private_roles(trees[file]) if file == "structure/atoms.py" else {}
+            if _is_private(fn) and fn in [lab for _, _, lab in ROLE_SITES] and fn not in roles.values():
+                raise ValueError("private helper not found by its caller")
+            actual = next((k for k, v in roles.items() if v == fn), fn)       # private helpers are found by their role
+            f = next((n for n in body if isinstance(n, ast.FunctionDef) and n.name == actual), None)
+            if f is None:
+                raise ValueError("function not found")
+            res.append((label, _py_skeleton(f, roles)))
+        except Exception as e:  # noqa: BLE001  (never crash: the named obligation of this function breaks instead)
+            res.append((label, [f"<not found: {type(e).__name__}: {str(e)[:80]}>"]))
     pyx = open(os.path.join(paths.SRC, "biotite/structure/bonds.pyx")).read()
     for fn in SKEL_PYX:
-        res.append(("bonds.pyx:" + fn, _pyx_skeleton(pyx, fn)))
+        try:
+            res.append(("bonds.pyx:" + fn, _pyx_skeleton(pyx, fn)))
+        except Exception as e:  # noqa: BLE001
+            res.append(("bonds.pyx:" + fn, [f"<not found: {str(e)[:80]}>"]))
     # decorators of the BondList class that switch off bounds checking (basis of the `ub` outcome)
     m = re.search(r"((?:^@cython\.[a-z]+\([A-Za-z]+\)\n)*)^class BondList", pyx, re.M)
-    if not m:
-        raise ValueError("bonds.pyx: class BondList not found")
-    res.append(("bonds.pyx:BondList-decorators", [x for x in m.group(1).split("\n") if x]))
+    res.append(("bonds.pyx:BondList-decorators", [x for x in m.group(1).split("\n") if x] if m else ["<not found>"]))
     return res
 
 
